@@ -83,6 +83,8 @@ def run_property(pid, tier, seed, replay, *, make_cases, judge, corr_filter=None
     if replay:
         r = json.load(open(replay))
         raw = [(r["price"], r["ops"])]
+        if r.get("judge_mode") == "C":
+            mode = "C" + mode[1:]      # the failure was judged against the model's own per-order function
     else:
         raw = load_corpus(pid) + make_cases(rng, tier)
     cases = [("c%d" % i, p, ops) for i, (p, ops) in enumerate(raw)]
@@ -125,6 +127,22 @@ def run_property(pid, tier, seed, replay, *, make_cases, judge, corr_filter=None
         if len(run.recs) != len(cases):
             ck.oblige("harness ran all cases (%s)" % prof, False, "%d of %d" % (len(run.recs), len(cases)))
 
+    if iface_bad and not judge_bad and mode.startswith("O") and not replay:
+        # the implementation's per-order answers break the interface the theorems assume.  In oracle mode model and judge
+        # follow those answers; run the same histories against the model's OWN per-order function (mode C) so that the
+        # judge sees what the property demands independently of the implementation's per-order function
+        redo = [("i%d" % k, price, ops) for k, (rec, price, ops, prof) in enumerate(iface_bad[:40])]
+        run_c = LevelRun(redo, "C" + mode[1:], "debug")
+        for rec in run_c.recs:
+            cid, price, ops = run_c.cases[rec["case"]]
+            if rec["timeout_at"] is not None:
+                continue
+            for (i, text) in judge(rec, price, ops):
+                if not (classify and classify(rec, price, ops, i, text)):
+                    judge_bad.append((rec, price, ops, i, text + " [judged against the model's own per-order function: the "
+                                      "implementation's per-order answers violate the interface I_cons]", "debug"))
+                break
+
     if formal:
         verdicts = coq_judge([f[4] for f in formal])
         fails = [f for f, v in zip(formal, verdicts) if not v]
@@ -163,8 +181,8 @@ def run_property(pid, tier, seed, replay, *, make_cases, judge, corr_filter=None
             # a class the file does not list: report as a violation
             judge_bad.append((None, price, ops, -1, "unlisted finding class: " + text, "debug"))
 
-    def fails(price, ops_try):
-        run = LevelRun([("s", price, ops_try)], mode, "debug")
+    def fails(price, ops_try, md=None):
+        run = LevelRun([("s", price, ops_try)], md or mode, "debug")
         if not run.recs:
             return False
         rec = run.recs[0]
@@ -185,12 +203,14 @@ def run_property(pid, tier, seed, replay, *, make_cases, judge, corr_filter=None
         small = ops
         try:
             if rec is not None and len(ops) > 1:
-                small = lvl.shrink(ops, lambda o: fails(price, o))
+                md = ("C" + mode[1:]) if "[judged against the model's own per-order function" in text else mode
+                small = lvl.shrink(ops, lambda o: fails(price, o, md))
         except Exception:
             small = ops
-        run = LevelRun([("s", price, small)], mode, "debug")
+        run = LevelRun([("s", price, small)], ("C" + mode[1:]) if "[judged against the model's own per-order function" in text else mode, "debug")
         trace = [dict(op=o["op"], impl=o["I"], model=o["M"]) for o in run.recs[0]["ops"]] if run.recs else []
         ck.violation("fail", dict(kind="level-history", price=price, ops=small, failing_op=i, why=text, profile=prof,
+                                  judge_mode=("C" if "[judged against the model's own per-order function" in text else mode[:1]),
                                   original_length=len(ops), trace=trace, failures=len(judge_bad)))
     elif corr_bad or iface_bad or not pr["ok"]:
         first = None
